@@ -223,14 +223,17 @@ Section Level.
     (forall is', length is' = (4 - length pre)%nat -> Forall (fun x => x < 512) is' -> hd 0 (pre ++ is') <> 511 ->
                  (err = 0 -> is' <> skipn (length pre) (ixs pg)) -> lookP s' t is' = lookP s t is') /\
     (err = 0 -> flog s' = va :: flog s) /\ (err <> 0 -> flog s' = flog s) /\
-    (forall f q i, own f = None -> own' f = Some q -> ent s' f i <> 0 -> exists j, q ++ [i] = firstn j (ixs pg)).
+    (forall f q i, own f = None -> own' f = Some q -> ent s' f i <> 0 -> exists j, q ++ [i] = firstn j (ixs pg)) /\
+    (* entries of existing tables off the page's path are untouched; so are present upper-level entries *)
+    (forall f p i, own f = Some p -> p ++ [i] <> firstn (S (length p)) (ixs pg) -> ent s' f i = ent s f i) /\
+    (forall f p i, own f = Some p -> (length p < 3)%nat -> hw_P (ent s f i) = true -> ent s' f i = ent s f i).
 
   (** what [Pre] gives about the current table *)
   Lemma pre_table pre s own t :
     Pre pre s own t -> (length pre <= 3)%nat ->
     own t = Some pre /\ backed s t = true /\ Forall (fun x => x < 512) pre /\ ix (length pre) < 512 /\
     hd 0 (pre ++ [ix (length pre)]) <> 511 /\ pre ++ [ix (length pre)] = firstn (S (length pre)) (ixs pg).
-  Proof.
+  Proof. clear Hva.
     intros (HI & Hf & Hp & H511) Hl.
     assert (Hlt: Forall (fun x => x < 512) pre).
     { rewrite Hp. apply Forall_forall. intros x Hx. apply (proj1 (Forall_forall _ _) (ixs_lt pg)).
@@ -259,10 +262,10 @@ Section Level.
   Qed.
 
   Lemma ent_wr s t i v f j : ent (wr_st s t i v) f j = if (f =? t) && (j =? i) then v else ent s f j.
-  Proof. unfold ent, wr_st. cbn [mem set_mem]. apply rd_wr. Qed.
+  Proof. clear Hva. unfold ent, wr_st. cbn [mem set_mem]. apply rd_wr. Qed.
 
   Lemma ent_flush s a f j : ent (flush s a) f j = ent s f j.
-  Proof. reflexivity. Qed.
+  Proof. clear Hva. reflexivity. Qed.
 
   (** the last level: write the leaf entry, flush *)
   Lemma map_leaf pre s own t frame flags :
@@ -291,7 +294,7 @@ Section Level.
     { intros f Hne j. rewrite He. destruct (N.eqb_spec f t); [congruence|reflexivity]. }
     pose proof (inv_wf _ _ _ _ HI) as W.
     unfold Post. rewrite Hl.
-    split; [|split; [|split; [|split; [|split; [|split; [|split; [|split; [|split; [|split]]]]]]]]].
+    split; [|split; [|split; [|split; [|split; [|split; [|split; [|split; [|split; [|split; [|split; [|split]]]]]]]]]]].
     - apply (Inv_ent_eq s s' A T own HI); try reflexivity.
       intros f j [-> | [-> | (p & Hop & Hlp)]]; apply Hnt.
       + destruct (inv_A _ _ _ _ HI) as [HA | HA]; intros E.
@@ -315,10 +318,14 @@ Section Level.
     - intros _. reflexivity.
     - intros H. congruence.
     - intros f q i Hn Hs. congruence.
+    - intros f p0 i Hp0 Hoff. rewrite He.
+      destruct (N.eqb_spec f t) as [Eft|]; [|reflexivity]. destruct (N.eqb_spec i (ix 3)) as [Ei|]; [|reflexivity].
+      exfalso. apply Hoff. rewrite Eft, Ho in Hp0. inversion Hp0 as [Ep]. rewrite <- Ep, Ei, Hl. exact Hsn.
+    - intros f p0 i Hp0 Hlp _. apply Hnt. intros E. rewrite E, Ho in Hp0. inversion Hp0 as [Ep]. rewrite <- Ep in Hlp. lia.
   Qed.
 
   Lemma skipn_ix k : (k <= 3)%nat -> skipn k (ixs pg) = ix k :: skipn (S k) (ixs pg).
-  Proof.
+  Proof. clear Hva.
     intros Hk. unfold ix, ixs. destruct k as [|[|[|[|n]]]]; cbn; try reflexivity. lia.
   Qed.
 
@@ -326,7 +333,7 @@ Section Level.
     Inv s1 A T own -> same_env s s1 -> (forall f j, ent s1 f j = ent s f j) ->
     (exists n, orc s1 = skipn n (orc s)) -> flog s1 = flog s ->
     Post pre s own t s1 E_ALLOC own.
-  Proof.
+  Proof. clear Hva.
     intros HI Hse He (n & Hn) Hfl. unfold Post.
     destruct Hse as (E1 & E2 & Hrest).
     split; [exact HI|]. split; [repeat split; tauto|]. split; [right; reflexivity|].
@@ -335,7 +342,8 @@ Section Level.
     split; [intros H; discriminate|].
     split; [intros; unfold lookP; rewrite (look_ext s s1) by assumption; reflexivity|].
     split; [intros H; discriminate|]. split; [intros _; exact Hfl|].
-    intros f q i H1 H2. congruence.
+    split; [intros f q i H1 H2; congruence|].
+    split; intros; apply He.
   Qed.
 
   (** a level above the last: descend, allocating and clearing the next table if it is missing *)
@@ -382,7 +390,7 @@ Section Level.
       destruct (IH s own c) as (s' & err & own' & Hrun & HQ).
       { split; [exact HI|]. split; [exact Hfc|]. split; [exact Hpre1 | exact H511]. }
       exists s', err, own'. rewrite Hnext. split; [exact Hrun|].
-      destruct HQ as (QI & Qenv & Qerr & (n & Qn & Qown) & Qfr & Qt & Qlook & Qoth & Qf1 & Qf2 & Qnew).
+      destruct HQ as (QI & Qenv & Qerr & (n & Qn & Qown) & Qfr & Qt & Qlook & Qoth & Qf1 & Qf2 & Qnew & Qoff & Qpres).
       assert (Hown't: own' t = Some pre).
       { destruct (Qown t) as [E | (E & _)]; [rewrite E; exact Ho | rewrite Ho in E; discriminate]. }
       assert (Htfix: forall j, ent s' t j = ent s t j).
@@ -403,8 +411,8 @@ Section Level.
         - rewrite look_cons, Hbk, Hb, Htfix. unfold usable. rewrite HPres, HPS. cbn [andb negb]. exact (Qlook He0). }
       split.
       { intros is' Hlen' Hlt' Hhd' Hne'.
-        destruct is' as [|i' r']; [cbn in Hlen'; lia|].
-        destruct r' as [|i2 r2]; [cbn in Hlen'; lia|].
+        destruct is' as [|i' r']; [cbn [length] in Hlen'; lia|].
+        destruct r' as [|i2 r2]; [cbn [length] in Hlen'; lia|].
         unfold lookP. rewrite !look_cons, Hbk, Htfix.
         destruct (backed s t && usable (ent s t i')) eqn:Eu; [|reflexivity].
         inversion Hlt' as [|? ? Hi' Hr']; subst.
@@ -422,17 +430,18 @@ Section Level.
             rewrite E. reflexivity. }
           destruct (wf_child _ _ _ W t pre i' Ho ltac:(lia) Hi' Hne2) as [_ Hc'].
           specialize (Hc' HP').
-          f_equal.
-          destruct Qenv as (E1 & E2 & _).
-          eapply (look_frame s s' T own _ (pre ++ [i'])); try eassumption.
-          * intros f q j Hq Hu _. apply Qfr.
-            destruct (Qown f) as [E | (E & _)]; [|rewrite Hq in E; discriminate].
-            rewrite E, Hq. cbn in Hu.
-            rewrite <- (firstn_skipn (length (pre ++ [i'])) q), Hu. rewrite <- app_assoc. apply not_under_sibling. congruence.
-          * rewrite app_length. cbn [length] in *. lia.
-          * rewrite <- app_assoc. exact Hhd'. }
+          assert (EQ: look s' (hw_frame (ent s t i')) (i2 :: r2) = look s (hw_frame (ent s t i')) (i2 :: r2)).
+          { destruct Qenv as (E1 & E2 & _).
+            eapply (look_frame s s' T own _ (pre ++ [i'])); try eassumption.
+            * intros f q j Hq Hu _. apply Qfr.
+              destruct (Qown f) as [E | (E & _)]; [|rewrite Hq in E; discriminate].
+              rewrite E, Hq. cbn in Hu.
+              rewrite <- (firstn_skipn (length (pre ++ [i'])) q), Hu. rewrite <- app_assoc. apply not_under_sibling. congruence.
+            * rewrite app_length. cbn [length] in *. lia.
+            * rewrite <- app_assoc. exact Hhd'. }
+          rewrite EQ. reflexivity. }
       split; [exact Qf1|]. split; [exact Qf2|].
-      exact Qnew.
+      split; [exact Qnew|]. split; [exact Qoff | exact Qpres].
     - (* the next table is missing: allocate *)
       unfold alloc. destruct (orc s) as [|x r] eqn:Eo.
       { (* oracle exhausted *)
@@ -471,7 +480,7 @@ Section Level.
       destruct (IH s3 (upd own nf (pre ++ [i])) nf) as (s' & err & own' & Hrun & HQ).
       { split; [exact HI3|]. split; [exact Hf3|]. split; [exact Hpre1 | exact H511]. }
       exists s', err, own'. rewrite Hnext. split; [exact Hrun|].
-      destruct HQ as (QI & Qenv & Qerr & (n & Qn & Qown) & Qfr & Qt & Qlook & Qoth & Qf1 & Qf2 & Qnew).
+      destruct HQ as (QI & Qenv & Qerr & (n & Qn & Qown) & Qfr & Qt & Qlook & Qoth & Qf1 & Qf2 & Qnew & Qoff & Qpres).
       assert (Hnt: nf <> t) by (intros E; rewrite E, Ho in Hon; discriminate).
       assert (Hupo: forall f, f <> nf -> upd own nf (pre ++ [i]) f = own f).
       { intros f Hne'. unfold upd. destruct (N.eqb_spec f nf); [congruence|reflexivity]. }
@@ -508,7 +517,7 @@ Section Level.
         destruct (N.eqb_spec f t) as [->|Hft]; [exfalso; apply Hu; rewrite Hown't; apply under_self|]. reflexivity. }
       split.
       { intros j Hj. rewrite Htfix, He3. destruct (N.eqb_spec t nf); [congruence|]. cbn [andb].
-        rewrite N.eqb_refl. destruct (N.eqb_spec j i); [congruence|reflexivity]. }
+        rewrite N.eqb_refl. destruct (N.eqb_spec j i) as [Eji|]; [exact (False_ind _ (Hj Eji))|reflexivity]. }
       split.
       { intros He0. rewrite Hskip.
         destruct (skipn (length (pre ++ [i])) (ixs pg)) as [|i2 r2] eqn:Esk.
@@ -516,8 +525,8 @@ Section Level.
         - rewrite look_cons, Hbk, Hb, Htfix, Ht3. unfold usable. rewrite LP, LPS, LF. cbn [andb negb]. exact (Qlook He0). }
       split.
       { intros is' Hlen' Hlt' Hhd' Hne'.
-        destruct is' as [|i' r']; [cbn in Hlen'; lia|].
-        destruct r' as [|i2 r2]; [cbn in Hlen'; lia|].
+        destruct is' as [|i' r']; [cbn [length] in Hlen'; lia|].
+        destruct r' as [|i2 r2]; [cbn [length] in Hlen'; lia|].
         inversion Hlt' as [|? ? Hi' Hr']; subst.
         unfold lookP. rewrite !look_cons, Hbk, Htfix.
         destruct (N.eq_dec i' i) as [->|Hii].
@@ -542,7 +551,7 @@ Section Level.
             rewrite E. reflexivity. }
           destruct (wf_child _ _ _ W t pre i' Ho ltac:(lia) Hi' Hne2) as [_ Hc'].
           specialize (Hc' HP').
-          f_equal.
+          assert (EQ: look s' (hw_frame (ent s t i')) (i2 :: r2) = look s (hw_frame (ent s t i')) (i2 :: r2)); [|rewrite EQ; reflexivity].
           destruct Henv as (E1 & E2 & _).
           eapply (look_frame s s' T own _ (pre ++ [i'])); try eassumption.
           * intros f q j Hq Hu _.
@@ -560,14 +569,101 @@ Section Level.
           * rewrite <- app_assoc. exact Hhd'. }
       split; [intros He0; rewrite (Qf1 He0); reflexivity|].
       split; [intros He0; rewrite (Qf2 He0); reflexivity|].
-      intros f q j Hof Hq Hnz.
-      destruct (N.eq_dec f nf) as [->|Hfn].
-      + rewrite Hown'n in Hq. inversion Hq; subst q.
-        destruct (N.eq_dec j (ix (length (pre ++ [i])))) as [->|Hj].
-        * exists (S (length (pre ++ [i]))).
-          assert (Hp2: Pre (pre ++ [i]) s3 (upd own nf (pre ++ [i])) nf) by (split; [exact HI3|]; split; [exact Hf3|]; split; [exact Hpre1 | exact H511]).
-          destruct (pre_table (pre ++ [i]) s3 _ nf Hp2 ltac:(rewrite Hlen1; lia)) as (_ & _ & _ & _ & _ & E). exact E.
-        * exfalso. apply Hnz. rewrite (Qt j Hj). apply Hz3.
-      + apply (Qnew f q j); [rewrite Hupo by exact Hfn; exact Hof | exact Hq | exact Hnz].
+      split.
+      { intros f q j Hof Hq Hnz.
+        destruct (N.eq_dec f nf) as [->|Hfn].
+        + rewrite Hown'n in Hq. inversion Hq; subst q.
+          destruct (N.eq_dec j (ix (length (pre ++ [i])))) as [->|Hj].
+          * exists (S (length (pre ++ [i]))).
+            assert (Hp2: Pre (pre ++ [i]) s3 (upd own nf (pre ++ [i])) nf) by (split; [exact HI3|]; split; [exact Hf3|]; split; [exact Hpre1 | exact H511]).
+            destruct (pre_table (pre ++ [i]) s3 _ nf Hp2 ltac:(rewrite Hlen1; lia)) as (_ & _ & _ & _ & _ & E). exact E.
+          * exfalso. apply Hnz. rewrite (Qt j Hj). apply Hz3.
+        + apply (Qnew f q j); [rewrite Hupo by exact Hfn; exact Hof | exact Hq | exact Hnz]. }
+      assert (H3s: forall f p j, own f = Some p -> (f <> t \/ j <> i) -> ent s3 f j = ent s f j).
+      { intros f p j Hq0 Hd. rewrite He3.
+        destruct (N.eqb_spec f nf) as [E|]; [rewrite E, Hon in Hq0; discriminate|]. cbn [andb].
+        destruct (N.eqb_spec f t); destruct (N.eqb_spec j i); cbn [andb]; try reflexivity. destruct Hd; congruence. }
+      split.
+      { intros f p j Hq0 Hoff.
+        assert (Hfn: f <> nf) by (intros E; rewrite E, Hon in Hq0; discriminate).
+        rewrite (Qoff f p j); [|rewrite Hupo by exact Hfn; exact Hq0 | exact Hoff].
+        apply (H3s f p j Hq0).
+        destruct (N.eq_dec f t) as [Eft|]; [|left; assumption]. right. intros Ej. apply Hoff.
+        rewrite Eft, Ho in Hq0. inversion Hq0 as [Ep]. rewrite <- Ep, Ej. exact Hsn. }
+      intros f p j Hq0 Hlp HPj.
+      assert (Hfn: f <> nf) by (intros E; rewrite E, Hon in Hq0; discriminate).
+      assert (Hd: f <> t \/ j <> i).
+      { destruct (N.eq_dec f t) as [Eft|]; [|left; assumption]. right. intros Ej. rewrite Eft, Ej, HPres in HPj. discriminate. }
+      rewrite (Qpres f p j); [apply (H3s f p j Hq0 Hd) | rewrite Hupo by exact Hfn; exact Hq0 | exact Hlp |].
+      rewrite (H3s f p j Hq0 Hd). exact HPj.
   Qed.
 End Level.
+
+(** * The whole walk *)
+Lemma ix_val pg : ix pg 0 = hw_idx pg 0 /\ ix pg 1 = hw_idx pg 1 /\ ix pg 2 = hw_idx pg 2 /\ ix pg 3 = hw_idx pg 3.
+Proof. repeat split; reflexivity. Qed.
+
+Lemma map_walk_spec A T pg va frame flags s own :
+  (forall k, k <= 3 -> hw_idx (N.shiftr va 12) k = hw_idx pg k) ->
+  Inv s A T own -> hw_idx pg 0 <> 511 ->
+  exists s' err own',
+    map_walk go_levels 0 vmm_pdtVirtualAddr va frame flags s = Ok (s', err) /\
+    Post A T pg va (set_flags (set_frame 0 frame) flags) [] s own T s' err own'.
+Proof.
+  intros Hva HI H511.
+  destruct (entry_index_hw va) as (E0 & E1 & E2 & E3).
+  set (leaf := set_flags (set_frame 0 frame) flags).
+  assert (L3: forall s0 own0 t0, Pre A T pg [ix pg 0; ix pg 1; ix pg 2] s0 own0 t0 ->
+            exists s' err own', map_walk [(12, 9)] 3 (wwin [ix pg 0; ix pg 1; ix pg 2]) va frame flags s0 = Ok (s', err) /\
+                                Post A T pg va leaf [ix pg 0; ix pg 1; ix pg 2] s0 own0 t0 s' err own').
+  { intros s0 own0 t0 HP0.
+    destruct (map_leaf A T pg va leaf Hva [ix pg 0; ix pg 1; ix pg 2] s0 own0 t0 frame flags eq_refl HP0 eq_refl) as (s' & Hrun & HQ).
+    exists s', 0, own0. split; assumption. }
+  assert (L2: forall s0 own0 t0, Pre A T pg [ix pg 0; ix pg 1] s0 own0 t0 ->
+            exists s' err own', map_walk [(21, 9); (12, 9)] 2 (wwin [ix pg 0; ix pg 1]) va frame flags s0 = Ok (s', err) /\
+                                Post A T pg va leaf [ix pg 0; ix pg 1] s0 own0 t0 s' err own').
+  { apply (map_level A T pg va leaf Hva [ix pg 0; ix pg 1] 21 [(12, 9)] frame flags).
+    - cbn [length]. lia.
+    - rewrite E2, Hva by lia. reflexivity.
+    - reflexivity.
+    - reflexivity.
+    - exact L3. }
+  assert (L1: forall s0 own0 t0, Pre A T pg [ix pg 0] s0 own0 t0 ->
+            exists s' err own', map_walk [(30, 9); (21, 9); (12, 9)] 1 (wwin [ix pg 0]) va frame flags s0 = Ok (s', err) /\
+                                Post A T pg va leaf [ix pg 0] s0 own0 t0 s' err own').
+  { apply (map_level A T pg va leaf Hva [ix pg 0] 30 [(21, 9); (12, 9)] frame flags).
+    - cbn [length]. lia.
+    - rewrite E1, Hva by lia. reflexivity.
+    - reflexivity.
+    - reflexivity.
+    - exact L2. }
+  rewrite go_levels_val, <- wwin_nil.
+  apply (map_level A T pg va leaf Hva [] 39 [(30, 9); (21, 9); (12, 9)] frame flags).
+  - cbn [length]. lia.
+  - rewrite E0, Hva by lia. reflexivity.
+  - reflexivity.
+  - reflexivity.
+  - exact L1.
+  - split; [exact HI|]. split; [reflexivity|]. split; [reflexivity | exact H511].
+Qed.
+
+Lemma frame_addr_idx page k : k <= 3 -> hw_idx (N.shiftr (frame_addr page) 12) k = hw_idx page k.
+Proof. intros Hk. unfold frame_addr. rewrite page_shift_val. apply hw_idx_shl_page. exact Hk. Qed.
+
+(** the reserved-zero-frame guard of Map *)
+Definition zero_guard (s : st) (frame flags : N) : bool :=
+  prot s && (frame =? zf s) && negb (N.land flags vmm_FlagRW =? 0).
+
+Lemma map_page_guarded page frame flags s :
+  zero_guard s frame flags = true -> map_page page frame flags s = Ok (s, E_ZERO_RW).
+Proof. unfold map_page, zero_guard. intros ->. reflexivity. Qed.
+
+Lemma map_page_spec A T page frame flags s own :
+  Inv s A T own -> hw_idx page 0 <> 511 -> zero_guard s frame flags = false ->
+  exists s' err own',
+    map_page page frame flags s = Ok (s', err) /\
+    Post A T page (frame_addr page) (set_flags (set_frame 0 frame) flags) [] s own T s' err own'.
+Proof.
+  intros HI H511 Hg. unfold map_page. unfold zero_guard in Hg. rewrite Hg.
+  apply map_walk_spec; try assumption. apply frame_addr_idx.
+Qed.
